@@ -158,8 +158,11 @@ func checkRoomID(res *eventV3) error {
 	//if isCreateEvent && res.eventFields.RoomID != "" {
 	//return fmt.Errorf("gomatrixserverlib: room_id must not exist on create event")
 	//}
-	if !isCreateEvent && !strings.HasPrefix(res.eventFields.RoomID, "!") {
-		return fmt.Errorf("gomatrixserverlib: room_id must start with !")
+	if !isCreateEvent {
+		if !strings.HasPrefix(res.eventFields.RoomID, "!") {
+			return fmt.Errorf("gomatrixserverlib: room_id must start with !")
+		}
+		return checkIDLength(res.eventFields.RoomID, "room")
 	}
 	return nil
 }
